@@ -48,7 +48,13 @@ pub fn reset_env(seed: u64) {
 /// Run `f` on a fresh OS thread (fresh thread-local `RandomState` keys => HashMap iteration order is a pure
 /// function of the seed) and return its result; panics are propagated as Err(message).
 pub fn on_fresh_thread<T: Send + 'static>(f: impl FnOnce() -> T + Send + 'static) -> Result<T, String> {
-    let h = std::thread::Builder::new().stack_size(16 << 20).spawn(f).expect("spawn");
+    let h = std::thread::Builder::new()
+        .stack_size(16 << 20)
+        .spawn(move || {
+            simlibc::mark_sim_thread(true);
+            f()
+        })
+        .expect("spawn");
     h.join().map_err(|p| {
         if let Some(s) = p.downcast_ref::<&str>() {
             s.to_string()
